@@ -213,6 +213,16 @@ func genHashFields(pkgs []*packages.Package) {
 			}
 		}
 	}
+	// the local name `hash.Name` keys on: what Task.LocalName strips from the full name
+	var ln []string
+	if astPkg != nil {
+		if fd := findFunc(astPkg, "Task.LocalName"); fd != nil {
+			for _, st := range fd.Body.List {
+				ln = append(ln, q(normExprF(astPkg.TypesInfo, fd, st)))
+			}
+		}
+	}
+	fmt.Fprintf(&b, "def localName : List String := [%s]\n\n", strings.Join(ln, ", "))
 	sort.Strings(keys)
 	fmt.Fprintf(&b, "def keyFuncs : List (String × List String) := [%s]\n", strings.Join(keys, ",\n  "))
 	writeLean("HashFields", "What hashstructure reaches from ast.Task (exported fields, Hashable types), the run-mode → key-function table of GetHash, and the key expressions of internal/hash.", b.String())
